@@ -20,7 +20,7 @@ RUN_FILES = ["Run/C13Run.v", "Run/C13Oracle.v"]
 RULE = ("file_formats[bin|raw|bk_wav|bk_turbo_wav] of the real code on: an image of every length 0-300 (all four containers), "
         "images summing to k*65535, k*65536 and neighbours (257 x 0xFF ...), seeded random images up to 4096 bytes, bases 0, 0o1000, "
         "0o177776, 0o177777 and out-of-range values, tape names of 0-20 bytes; the returned bytes are compared with the Coq model "
-        "(byte for byte, or by a length+polynomial+weighted-sum hash for large outputs) and decoded by the Spec readers "
+        "(byte for byte, or by a (length, sum, sum of prefix sums, sum of those) triple for large outputs) and decoded by the Spec readers "
         "(parse_bin / parse_wav + demod + cksum_spec) inside coqc.  Paths: os.path/resolve_relative_path on generated path strings, "
         "every make_xxx directive x path form x tape-name form x source-name form through the assembler (Compiler.emitted_files), "
         "and real `python -m pdpy11` runs in scratch directories for every output selector (files found = files expected, "
@@ -37,7 +37,7 @@ ASSUME = ["Python's bytes, struct.pack, os.path (posixpath) and open() behave as
           "Spec/BkTape.v states the BK-0010 tape rules (pulse classes relative to the pilot, >=512 pilot periods, marker, LSB first); "
           "the turbo format is judged by high-run widths only",
           "file names and tape names in the path cases are printable ASCII (str.lower / bk charset identity on ASCII, C14)",
-          "hash-compared large outputs: equal (length, polynomial hash mod 2^31-1, weighted sum mod 1e9+7) is taken as equal bytes"]
+          "hash-compared large outputs: equal (length, sum, sum of prefix sums, sum of those) is taken as equal bytes"]
 TRUSTED = ["tools/gens/gen_bkwav.py (translator plug-in)", "Run/C13Oracle.v expand_rep/hash glue and tools/props/c13.py compress/pyhash",
            "pathlib/os.path.realpath used to state where a file is expected"]
 
@@ -92,12 +92,13 @@ def rep_term(b):
 
 
 def pyhash(b):
-    n = a = c = 0
+    n = s1 = s2 = s3 = 0
     for x in b:
         n += 1
-        a = (a * 257 + x + 1) % 2147483647
-        c = (c + n * x) % 1000000007
-    return (n, a, c)
+        s1 += x
+        s2 += s1
+        s3 += s2
+    return (n, s1, s2, s3)
 
 
 def opt(term):
@@ -316,7 +317,7 @@ def format_term(c, model):
         return "OFormat " + ocase_term(c)
     if o["outcome"] == "ok" and "out" not in o:
         h = o["hash"]
-        return "CHash %s (%d, %d, %d)" % (ocase_term(c, with_obs=False), h[0], h[1], h[2])
+        return "CHash %s (%d, %d, %d, %d)" % (ocase_term(c, with_obs=False), h[0], h[1], h[2], h[3])
     return "CFormat " + ocase_term(c)
 
 
